@@ -38,7 +38,7 @@ ASSUMPTIONS = [
     "removing the last key of a section is hand-edited as deleting the line and the then-empty section header",
     "values containing line continuations are not used for --list-items comparisons",
 ]
-REQUIRED = {"remove_then_add": 5, "override_empty_value": 3, "same_key_two_sections": 4, "valid": 80, "invalid": 30, "op:override": 60, "op:remove": 40, "op:add": 40, "whitespace_key": 40,
+REQUIRED = {"colon_value:make_config_parser": 8, "invalid:add_twice:make_config_parser": 2, "invalid:add_twice_ws:make_config_parser": 2, "remove_then_add": 5, "override_empty_value": 3, "same_key_two_sections": 4, "valid": 80, "invalid": 30, "op:override": 60, "op:remove": 40, "op:add": 40, "whitespace_key": 40,
             "removes_last_key": 5, "repeated_override": 10, "route:ConfigParser": 30, "route:make_config_parser": 30,
             "section:Table-Form": 5, "section:Species": 5, "listing": 40}
 
@@ -59,7 +59,9 @@ def _ws(draw, key):
     return "".join(out).strip() if how == "spaces" else "".join(out)
 
 
-NOTES = ["Notes", [["author", "someone"], ["comment", "free text 1"]]]
+INVALID = ["override_missing_key", "override_missing_section", "remove_missing_key", "add_existing", "add_existing_ws", "add_twice",
+           "add_twice_ws", "remove_twice"]
+NOTES = ["Notes", [["author", "someone"], ["comment", "free text 1"], ["scale", "2.5"]]]
 
 
 def _secs(case_or_model, notes):
@@ -70,9 +72,9 @@ def _secs(case_or_model, notes):
 
 
 @st.composite
-def _case(draw, targets=None, invalid=False, repeat=False, cross=False):
+def _case(draw, targets=None, invalid=False, repeat=False, cross=False, route=None, colon=False):
     m = draw(gen.any_model(targets, 1, 3, depth=0))
-    notes = draw(st.booleans())
+    notes = draw(st.booleans()) or colon
     secs = _secs(m, notes)
     nops = draw(st.integers(1, 5))
     ops = []
@@ -80,7 +82,29 @@ def _case(draw, targets=None, invalid=False, repeat=False, cross=False):
     keys = [(n, k, v) for n, ents in secs for k, v in ents]
     editable = [(n, k, v) for n, k, v in keys if n not in ("Tabulation",) or k in ("nr", "cutoff", "nrho", "cutoff_rho")]
     for i in range(nops):
-        kind = draw(st.sampled_from(["override", "override", "remove", "add", "remove_then_add", "override_empty"]))
+        kind = draw(st.sampled_from(["override", "override", "remove", "add", "remove_then_add", "override_empty"] +
+                                    (["colon_value"] * 6 if colon else [])))
+        if kind == "colon_value":
+            # values that contain a colon: the documented cross-section place-holder, free text
+            which = draw(st.sampled_from(["placeholder", "text_override", "text_add"]))
+            if which == "placeholder":
+                cand = [(n, k, v) for n, k, v in keys if n in ("Pair", "EAM-Embed", "EAM-Density") and (n, k) not in used]
+                if not cand:
+                    continue
+                n, k, v = draw(st.sampled_from(cand))
+                ops.append({"op": "override", "section": n, "key0": k, "key": _ws(draw, k), "value": "as.constant ${Notes:scale}", "colon": True})
+            elif which == "text_override":
+                n, k = "Notes", draw(st.sampled_from(["author", "comment"]))
+                if (n, k) in used:
+                    continue
+                ops.append({"op": "override", "section": n, "key0": k, "key": k, "value": "see: appendix %d, part b:2" % draw(st.integers(1, 9)), "colon": True})
+            else:
+                n, k = "Notes", draw(st.sampled_from(["url", "ratio"]))
+                if (n, k) in used:
+                    continue
+                ops.append({"op": "add", "section": n, "key0": k, "key": k, "value": draw(st.sampled_from(["http://example.org/a:b", "1:2"])), "colon": True})
+            used.add((n, k))
+            continue
         if kind == "remove_then_add":
             # an item removed and added again with another value: removals come before additions
             cand = [(n, k, v) for n, k, v in keys if (n, k) not in used and n in ("Pair", "Species", "Notes")]
@@ -145,8 +169,7 @@ def _case(draw, targets=None, invalid=False, repeat=False, cross=False):
             ops.append({"op": "add", "section": sec, "key0": k, "key": _ws(draw, k), "value": val})
             used.add((sec, k))
     if invalid:
-        why = draw(st.sampled_from(["override_missing_key", "override_missing_section", "remove_missing_key",
-                                    "add_existing", "add_existing_ws", "add_twice", "add_twice_ws", "remove_twice"]))
+        why = invalid if isinstance(invalid, str) else draw(st.sampled_from(INVALID))
         n, k, v = draw(st.sampled_from(keys))
         if why == "override_missing_key":
             bad = {"op": "override", "section": n, "key0": k + "_x", "key": k + "_x", "value": v}
@@ -211,7 +234,7 @@ def _case(draw, targets=None, invalid=False, repeat=False, cross=False):
     if not ops:
         n, k, v = draw(st.sampled_from(editable))
         ops.append({"op": "override", "section": n, "key0": k, "key": _ws(draw, k), "value": v})
-    route = draw(st.sampled_from(["ConfigParser", "make_config_parser"])) if not cross else "make_config_parser"
+    route = route or (draw(st.sampled_from(["ConfigParser", "make_config_parser"])) if not cross else "make_config_parser")
     if any(o.get("invalid") == "remove_twice" for o in ops):
         route = "ConfigParser"
     return {"model": m, "ops": ops, "route": route, "notes": notes}
@@ -223,13 +246,17 @@ def strategy(tier):
 
 def strata(tier):
     return [("valid:pair", _case(gen.PAIR_TARGETS), 3), ("valid:eam", _case(sorted(gen.EAM_TARGETS)), 4),
-            ("invalid", _case(None, True), 3), ("repeated", _case(None, False, True), 2),
-            ("same_key_two_sections", _case(["setfl", "DL_POLY_EAM", "excel_eam", "eam_adp", "lammps_eam_alloy"], False, False, True), 2)]
+            ("invalid", _case(None, True), 1), ("repeated", _case(None, False, True), 2),
+            ("colon_values:ConfigParser", _case(None, route="ConfigParser", colon=True), 0.5),
+            ("colon_values:make_config_parser", _case(None, route="make_config_parser", colon=True), 1),
+            ("same_key_two_sections", _case(["setfl", "DL_POLY_EAM", "excel_eam", "eam_adp", "lammps_eam_alloy"], False, False, True), 2)] + [
+            ("invalid:%s:%s" % (w, r), _case(None, w, route=r), 0.15) for w in INVALID for r in ("ConfigParser", "make_config_parser")
+            if not (w == "remove_twice" and r == "make_config_parser")]
 
 
 def budget(tier):
     if tier == "quick":
-        return {"examples": 230}
+        return {"examples": 260}
     return {"examples": 900, "shards": 16}
 
 
@@ -320,8 +347,11 @@ def _cli_args(ops):
 
 def _expected_items(edited):
     items = []
+    scale = dict((k, v) for n, ents in edited if n == "Notes" for k, v in ents).get("scale")
     for n, ents in edited:
         for k, v in ents:
+            if scale is not None:
+                v = v.replace("${Notes:scale}", scale)      # values are reported with place-holders resolved
             items.append(("%s:%s" % (n, _norm(k)), v))
     return sorted(items)
 
@@ -333,6 +363,11 @@ def check_case(case):
     text = anymodel.text_of(secs)
     edited, reason, stats = hand_edit(secs, ops)
     cls = ["route:" + route, "target:" + target, "valid" if edited is not None else "invalid"]
+    for o in ops:
+        if o.get("invalid"):
+            cls.append("invalid:%s:%s" % (o["invalid"], route))
+        if o.get("colon"):
+            cls.append("colon_value:" + route)
     cls.extend(sorted(set("op:" + o["op"] for o in ops)))
     cls.extend(sorted(set("section:" + o["section"].split(":")[0] for o in ops)))
     if any(o["key"] != o["key0"] for o in ops):
